@@ -444,12 +444,36 @@ func (s *State) UnmarshalRef(entry string, b, h, dh int) V {
 	return s.UnmarshalFull(entry, b, h, dh, 0, 0)
 }
 
+// withTail copies b into a slice that has spare capacity behind it, filled with a pattern: the memory a
+// real receive buffer has behind the datagram. A decoder must neither write there nor let what is there
+// influence its result.
+const tailLen = 24
+
+func withTail(b []byte, fill byte) []byte {
+	full := make([]byte, len(b)+tailLen)
+	copy(full, b)
+	for i := len(b); i < len(full); i++ {
+		full[i] = fill ^ byte(i)
+	}
+	return full[:len(b)]
+}
+
+func tailIntact(in []byte, fill byte) bool {
+	full := in[:len(in)+tailLen]
+	for i := len(in); i < len(full); i++ {
+		if full[i] != fill^byte(i) {
+			return false
+		}
+	}
+	return true
+}
+
 // UnmarshalFull: eqh, when non-zero, names a handle whose packet this result
 // is expected to equal (same bytes up to the declared length, C13).
 // eqb is the buffer that eqh was decoded from.
 func (s *State) UnmarshalFull(entry string, b, h, dh, eqh, eqb int) V {
 	orig := s.Buf[b]
-	in := append([]byte(nil), orig...)
+	in := withTail(orig, 0xA5)
 	p := NewOf(entry)
 	var err error
 	a0 := s.allocNow()
@@ -457,15 +481,25 @@ func (s *State) UnmarshalFull(entry string, b, h, dh, eqh, eqb int) V {
 	alloc := s.allocNow() - a0
 	var out any = none
 	delete(s.spare, h)
+	tailsame := true
 	if !pan && err == nil {
 		out = abs.Abs(p)
 		s.Pk[h] = p
 		s.in[h], s.orig[h] = in, append([]byte(nil), in...)
+		// the same octets with other memory behind them
+		q := NewOf(entry)
+		var err2 error
+		pan2, _ := guardedDecode(func() string { return fmt.Sprintf("unmarshal %s %v", entry, orig) }, func() { err2 = q.Unmarshal(withTail(orig, 0x3C)) })
+		tailsame = !pan2 && err2 == nil && reflect.DeepEqual(out, abs.Abs(q))
 	} else {
 		delete(s.Pk, h)
 		delete(s.in, h)
 	}
 	ev := decodeEvent("unmarshal", entry, b, h, in, orig, pan, msg, err, alloc, out)
+	if !tailIntact(in, 0xA5) {
+		ev["bufsame"] = false
+	}
+	ev["tailsame"] = tailsame
 	ev["dh"] = dh
 	ev["eqh"] = eqh
 	ev["eqb"] = eqb
@@ -536,7 +570,7 @@ func (s *State) Datagram(b, h int) V { return s.DatagramParts(b, h, nil) }
 // results of decoding each frame of b on its own (for the locality check).
 func (s *State) DatagramParts(b, h int, parts []int) V {
 	orig := s.Buf[b]
-	in := append([]byte(nil), orig...)
+	in := withTail(orig, 0xA5)
 	var ps []rtcp.Packet
 	var err error
 	a0 := s.allocNow()
@@ -545,6 +579,13 @@ func (s *State) DatagramParts(b, h int, parts []int) V {
 	out := L{}
 	if !pan {
 		out = abs.AbsList(ps)
+	}
+	tailsame := true
+	if !pan && err == nil {
+		var qs []rtcp.Packet
+		var err2 error
+		pan2, _ := guardedDecode(func() string { return fmt.Sprintf("datagram %v", orig) }, func() { qs, err2 = rtcp.Unmarshal(withTail(orig, 0x3C)) })
+		tailsame = !pan2 && err2 == nil && reflect.DeepEqual(out, abs.AbsList(qs))
 	}
 	delete(s.spare, h)
 	if !pan && err == nil {
@@ -555,6 +596,10 @@ func (s *State) DatagramParts(b, h int, parts []int) V {
 		delete(s.in, h)
 	}
 	ev := decodeEvent("datagram", "DGRAM", b, h, in, orig, pan, msg, err, alloc, out)
+	if !tailIntact(in, 0xA5) {
+		ev["bufsame"] = false
+	}
+	ev["tailsame"] = tailsame
 	pl := make(L, len(parts))
 	for i, p := range parts {
 		pl[i] = p
